@@ -42,6 +42,10 @@ FieldsOK(dt, s, f) ==
     [] dt = "dateTime" -> LET x == DateF(Sub(b, 1, 10))  y == TimeF(Sub(b, 12, Len(b))) IN
                           f.y = x.y /\ f.mo = x.mo /\ f.d = x.d /\ f.h = y.h /\ f.mi = y.mi /\ f.s = y.s /\ f.us = y.us /\ f.tz = tz
 
+Durations == {"duration", "dayTimeDuration", "yearMonthDuration"}
+(* e.dur = [neg, months, secs, micros] of the Python value (absolute amounts and a sign) *)
+DurOK(lex, d) == /\ d.months = DurMonths(lex) /\ d.secs = DurSeconds(lex) /\ d.micros = DurMicros(lex)
+                 /\ (DurIsZero(lex) \/ d.neg = DurNeg(lex))
 ExpectedDt == [int |-> "integer", float |-> "double", Decimal |-> "decimal", bool |-> "boolean", str |-> "", date |-> "date", time |-> "time",
                datetime |-> "dateTime", timedelta |-> "dayTimeDuration", Duration |-> "duration"]
 Numeric == IntFamily \cup {"decimal", "double", "float"}
@@ -57,10 +61,12 @@ JudgeLex(e) ==
        ELSE IF ~e.hasval THEN "ValueAssigned:" \o e.dt
        ELSE IF HasCanon(e.dt) /\ e.canon # Canon(e.dt, e.lex) THEN "ValueAgrees:" \o e.dt
        ELSE IF FieldsJudged(e.dt, e.lex) /\ ~FieldsOK(e.dt, e.lex, e.fields) THEN "ValueAgrees:" \o e.dt
+       ELSE IF e.dt \in Durations /\ DurJudged(e.lex) /\ ~DurOK(e.lex, e.dur) THEN "ValueAgrees:" \o e.dt
        ELSE IF ~Valid(e.dt, e.out) THEN "NormalisedFormValid:" \o e.dt
        ELSE IF e.ill_out THEN "NormalisedFormValid:flagged:" \o e.dt
        ELSE IF HasCanon(e.dt) /\ Canon(e.dt, e.out) # Canon(e.dt, e.lex) THEN "NormalisationKeepsValue:" \o e.dt
        ELSE IF FieldsJudged(e.dt, e.lex) /\ ~(FieldsJudged(e.dt, e.out) /\ FieldsOK(e.dt, e.out, e.fields)) THEN "NormalisationKeepsValue:" \o e.dt
+       ELSE IF e.dt \in Durations /\ DurJudged(e.lex) /\ ~(DurJudged(e.out) /\ DurOK(e.out, e.dur)) THEN "NormalisationKeepsValue:" \o e.dt
        ELSE IF ~e.same THEN "NormalisationKeepsValue:py:" \o e.dt
        ELSE IF e.out2 # e.out THEN "NormalisationIdempotent:" \o e.dt
        ELSE "ok"
@@ -70,6 +76,7 @@ JudgePy(e) ==
   ELSE IF e.dt \in Judged /\ ~Unjudged(e.dt, e.lex) /\ ~Valid(e.dt, e.lex) THEN "LexicalValid:" \o e.ty
   ELSE IF e.dt # "" /\ HasCanon(e.dt) /\ Canon(e.dt, e.lex) # e.canon THEN "LexicalDenotesValue:" \o e.ty
   ELSE IF e.dt \in {"date", "time", "dateTime"} /\ FieldsJudged(e.dt, e.lex) /\ ~FieldsOK(e.dt, e.lex, e.fields) THEN "LexicalDenotesValue:" \o e.ty
+  ELSE IF e.dt \in Durations /\ DurJudged(e.lex) /\ e.dur.ok /\ ~DurOK(e.lex, e.dur) THEN "LexicalDenotesValue:" \o e.ty
   ELSE IF ~e.back THEN "ConvertsBack:" \o e.ty
   ELSE IF e.ill THEN "LexicalValid:flagged:" \o e.ty
   ELSE "ok"
